@@ -1151,6 +1151,118 @@ func (c *cli) ruleHaveDiff(r *Report) {
 	if n == 0 {
 		r.Bad(rule, c.tag+":diff-routine", "-", "no diff routine (func returning string, bool, error) found in package main")
 	}
+	c.ruleOperands(r)
+}
+
+// ruleOperands — the two documents handed to the library's Diff are read from two different
+// inputs on every path: the parameters of the calling function that the receiver derives from and
+// those the argument derives from (through the library's readers, phis, locals and in-package
+// helpers) are disjoint, and each side derives from one. A "same text, parse once" shortcut that
+// lets the second operand be the first document (seeded change C05-r) makes the difference flag a
+// statement about one document.
+func (c *cli) ruleOperands(r *Report) {
+	const rule = "R-CLI/AB"
+	for _, fn := range c.fns {
+		k := 0
+		for _, b := range fn.Blocks {
+			for _, in := range b.Instrs {
+				ci, ok := in.(ssa.CallInstruction)
+				if !ok || c.libCallee(ci) != "Diff" || !ci.Common().IsInvoke() || len(ci.Common().Args) < 1 {
+					continue
+				}
+				k++
+				key := c.key(fn, fmt.Sprintf("diff-operands#%d", k))
+				pa, oa := map[int]bool{}, false
+				pb, ob := map[int]bool{}, false
+				operandParams(fn, ci.Common().Value, pa, &oa, map[ssa.Value]bool{}, 0)
+				operandParams(fn, ci.Common().Args[0], pb, &ob, map[ssa.Value]bool{}, 0)
+				if oa || ob {
+					r.Ok(rule, key, c.w.Pos(ci.Pos()), "an operand of Diff does not derive from the function's parameters alone: this clause makes no claim (not decided)")
+					continue
+				}
+				shared := ""
+				for i := range pa {
+					if pb[i] {
+						shared = fn.Params[i].Name()
+					}
+				}
+				r.Check(len(pa) > 0 && len(pb) > 0 && shared == "", rule, key, c.w.Pos(ci.Pos()),
+					"the two documents handed to Diff derive from different inputs on every path",
+					"the two documents handed to Diff can be one and the same input: both derive from parameter `"+shared+"` on some path, so the second input is not (always) what the first is compared with and the difference flag says nothing about it")
+			}
+		}
+	}
+}
+
+// operandParams: the parameters of fn a value derives from; *other is set when it (also) derives
+// from something that is neither a parameter nor a constant.
+func operandParams(fn *ssa.Function, v ssa.Value, out map[int]bool, other *bool, seen map[ssa.Value]bool, depth int) {
+	if v == nil || seen[v] {
+		return
+	}
+	seen[v] = true
+	if depth > 30 {
+		*other = true
+		return
+	}
+	switch x := v.(type) {
+	case *ssa.Parameter:
+		for i, p := range fn.Params {
+			if p == x {
+				out[i] = true
+				return
+			}
+		}
+		*other = true
+	case *ssa.Const:
+	case *ssa.Phi:
+		for _, e := range x.Edges {
+			operandParams(fn, e, out, other, seen, depth+1)
+		}
+	case *ssa.Extract:
+		operandParams(fn, x.Tuple, out, other, seen, depth+1)
+	case *ssa.Convert:
+		operandParams(fn, x.X, out, other, seen, depth+1)
+	case *ssa.ChangeType:
+		operandParams(fn, x.X, out, other, seen, depth+1)
+	case *ssa.ChangeInterface:
+		operandParams(fn, x.X, out, other, seen, depth+1)
+	case *ssa.MakeInterface:
+		operandParams(fn, x.X, out, other, seen, depth+1)
+	case *ssa.TypeAssert:
+		operandParams(fn, x.X, out, other, seen, depth+1)
+	case *ssa.UnOp:
+		if x.Op != token.MUL {
+			operandParams(fn, x.X, out, other, seen, depth+1)
+			return
+		}
+		al, ok := x.X.(*ssa.Alloc)
+		if !ok {
+			// flags and other globals select a reader, they are not a document
+			if _, isG := x.X.(*ssa.Global); isG {
+				return
+			}
+			*other = true
+			return
+		}
+		for _, ref := range *al.Referrers() {
+			if st, ok := ref.(*ssa.Store); ok && st.Addr == ssa.Value(al) {
+				operandParams(fn, st.Val, out, other, seen, depth+1)
+			}
+		}
+	case *ssa.Call:
+		if x.Call.IsInvoke() {
+			operandParams(fn, x.Call.Value, out, other, seen, depth+1)
+		}
+		for _, a := range x.Call.Args {
+			// option lists and the like are not documents: only string / []byte / node arguments count
+			operandParams(fn, a, out, other, seen, depth+1)
+		}
+	case *ssa.Slice:
+		operandParams(fn, x.X, out, other, seen, depth+1)
+	default:
+		*other = true
+	}
 }
 
 // haveDiffTable evaluates the diff routine's boolean result as a predicate over
